@@ -2861,15 +2861,17 @@ impl Node {
     /// The node tells us that it is forgetting a channel
     pub fn forget_channel(&self, channel_id: &ChannelId) -> Result<(), Status> {
         let mut stub_found = false;
-        // As per devrandom the lock order should be node_state -> channels -> channel
-        let mut node_state: MutexGuard<'_, NodeState> = self.get_state();
+        // The lock order is channels -> channel -> node_state, as in every channel request
+        // (which runs under the channel lock and then takes the node state) and in
+        // channel_balance / chaninfo.  Taking the node state first can deadlock with those.
         let mut channels = self.get_channels();
         let found = channels.get(channel_id);
         if let Some(slot) = found {
+            let channel = slot.lock().unwrap();
             // Acquire a lock on the node state to potentially update the high water mark.
             // This is the only place the high water mark could be updated so any changes
             // to the node state since acquiring the channels lock are irrelevant.
-            let channel = slot.lock().unwrap();
+            let mut node_state: MutexGuard<'_, NodeState> = self.get_state();
             match &*channel {
                 ChannelSlot::Stub(_) => {
                     info!("forget_channel stub {}", channel_id);
